@@ -5,7 +5,7 @@
 set -e
 cd "$(dirname "$0")/.."
 . ./env.sh
-patch="$1"; rules="${2:-all}"
+patch="$(readlink -f "$1")"; rules="${2:-all}"
 tmp=$(mktemp -d /tmp/ergomut.XXXXXX)
 trap 'rm -rf "$tmp"' EXIT
 rsync -a --exclude .git /repo/ "$tmp/"
